@@ -7,6 +7,8 @@ import (
 	"sort"
 	"strings"
 
+	"golang.org/x/tools/go/types/typeutil"
+
 	"utilverif/internal/core"
 )
 
@@ -27,6 +29,7 @@ type gbuilder struct {
 	defs  map[*types.Var]localDef
 	depth int
 	sec   int // section instance of the expression being built
+	g     *gpath
 }
 
 // usable: a definition that read shared state stands for that state only inside the section it
@@ -180,6 +183,17 @@ func (b *gbuilder) build(e ast.Expr, fr *core.Frame) *formula {
 			return atom("F(" + t + ")")
 		}
 	case *ast.CallExpr:
+		// a call that was walked in place: the condition is what the callee returned on this path
+		// (a predicate method such as hasCapacityLocked() stands for the expression it returns)
+		if b.g != nil && b.depth < 6 {
+			if ri, ok := b.g.rets[x]; ok {
+				ret := b.g.p.Events[ri]
+				if re, _ := retResult(ret, 0); re != nil && len(ret.Results) <= 1 {
+					sub := &gbuilder{c: b.c, defs: b.g.defs[ri], sec: b.g.sec[ri], g: b.g, depth: b.depth + 1}
+					return sub.build(re, ret.Frame)
+				}
+			}
+		}
 		if t, ok := b.term(x, fr); ok {
 			return atom("F(" + t + ")")
 		}
@@ -208,6 +222,31 @@ type gpath struct {
 	lits []*r2Lit                  // lits[i] non-nil for branch events
 	// section ids: for every event the index of the innermost open KAcquire, -1 if none
 	sec []int
+	// rets: call expression of an inlined declared function -> index of its latest KReturn event
+	rets map[*ast.CallExpr]int
+}
+
+// isAtomicRMW: x.Swap(v) / x.CompareAndSwap(a, b) on a sync/atomic value. Its result is a private
+// value of the caller; a local holding it stands for "the result of that operation".
+func isAtomicRMW(e ast.Expr, fr *core.Frame) bool {
+	call, ok := unparen(e).(*ast.CallExpr)
+	if !ok {
+		return false
+	}
+	sel, ok := unparen(call.Fun).(*ast.SelectorExpr)
+	if !ok || (sel.Sel.Name != "Swap" && sel.Sel.Name != "CompareAndSwap") {
+		return false
+	}
+	t := fr.Info().TypeOf(sel.X)
+	if t == nil || !core.IsAtomicType(t) {
+		return false
+	}
+	for _, a := range call.Args {
+		if !isPureOrLoad(a, fr) {
+			return false
+		}
+	}
+	return true
 }
 
 func isPureOrLoad(e ast.Expr, fr *core.Frame) bool {
@@ -248,7 +287,7 @@ func isPureOrLoad(e ast.Expr, fr *core.Frame) bool {
 }
 
 func prepare(c *Ctx, p *core.Path) *gpath {
-	g := &gpath{c: c, p: p, defs: make([]map[*types.Var]localDef, len(p.Events)+1), lits: make([]*r2Lit, len(p.Events)), sec: make([]int, len(p.Events))}
+	g := &gpath{c: c, p: p, defs: make([]map[*types.Var]localDef, len(p.Events)+1), lits: make([]*r2Lit, len(p.Events)), sec: make([]int, len(p.Events)), rets: map[*ast.CallExpr]int{}}
 	cur := map[*types.Var]localDef{}
 	var open []int
 	clone := func() map[*types.Var]localDef {
@@ -293,8 +332,12 @@ func prepare(c *Ctx, p *core.Path) *gpath {
 					break
 				}
 			}
+		case core.KReturn:
+			if ev.Frame.Call != nil && ev.Frame.Fn != nil && ev.Frame.CS == nil {
+				g.rets[ev.Frame.Call] = i
+			}
 		case core.KBranch:
-			gb := &gbuilder{c: c, defs: cur, sec: g.sec[i]}
+			gb := &gbuilder{c: c, defs: cur, sec: g.sec[i], g: g}
 			g.lits[i] = &r2Lit{f: gb.build(ev.Cond, ev.Frame), val: ev.CondVal}
 		case core.KAssign:
 			if ev.FieldInit {
@@ -303,7 +346,9 @@ func prepare(c *Ctx, p *core.Path) *gpath {
 			kill(ev.Var)
 			if v := identVar(ev.Lhs, ev.Frame); v != nil && !v.IsField() {
 				cur = clone()
-				if ev.Rhs != nil && ev.RhsIdx < 0 && (ev.Tok == token.ASSIGN || ev.Tok == token.DEFINE) && isPureOrLoad(ev.Rhs, ev.Frame) && !mentions(ev.Rhs, v, ev.Frame) {
+				if ev.Rhs != nil && ev.RhsIdx < 0 && (ev.Tok == token.ASSIGN || ev.Tok == token.DEFINE) && isAtomicRMW(ev.Rhs, ev.Frame) {
+					cur[v] = localDef{expr: ev.Rhs, fr: ev.Frame, sec: g.sec[i]}
+				} else if ev.Rhs != nil && ev.RhsIdx < 0 && (ev.Tok == token.ASSIGN || ev.Tok == token.DEFINE) && isPureOrLoad(ev.Rhs, ev.Frame) && !mentions(ev.Rhs, v, ev.Frame) {
 					cur[v] = localDef{expr: ev.Rhs, fr: ev.Frame, sec: g.sec[i], shared: readsShared(c, ev.Rhs, ev.Frame)}
 				} else {
 					delete(cur, v)
@@ -572,6 +617,7 @@ type agg struct {
 	m     map[string]*Obligation
 	order []string
 	sites map[string]map[token.Pos]bool
+	topic string // stamped on the obligations created while it is set
 }
 
 func newAgg(c *Ctx) *agg {
@@ -582,7 +628,7 @@ func (a *agg) note(rule, construct string, pos token.Pos, bad bool, okDetail, ba
 	key := rule + "|" + construct
 	o := a.m[key]
 	if o == nil {
-		o = &Obligation{Rule: rule, Construct: construct, Pos: a.c.Prog.Pos(pos), Verdict: Discharged, Detail: okDetail}
+		o = &Obligation{Rule: rule, Construct: construct, Pos: a.c.Prog.Pos(pos), Verdict: Discharged, Detail: okDetail, Topic: a.topic}
 		a.m[key] = o
 		a.order = append(a.order, key)
 		a.sites[key] = map[token.Pos]bool{}
@@ -607,7 +653,7 @@ func (a *agg) expect(rule, construct string, minSites int, what string) {
 		if o := a.m[key]; o != nil && o.Verdict == Violated {
 			return
 		}
-		o := &Obligation{Rule: rule, Construct: construct, Pos: "-", Verdict: Violated,
+		o := &Obligation{Rule: rule, Construct: construct, Pos: "-", Verdict: Violated, Topic: a.topic,
 			Detail: sprintf("expected at least %d site(s) of %s, found %d: the mechanism the rule judges is gone or was rewritten beyond recognition", minSites, what, n)}
 		if old := a.m[key]; old != nil {
 			*old = *o
@@ -753,6 +799,19 @@ func paramArgIn(v *types.Var, fr *core.Frame) (ast.Expr, *core.Frame, bool) {
 	if ft == nil {
 		return nil, nil, false
 	}
+	// the receiver of an inlined method called on a plain variable stands for that variable
+	if fr.Decl != nil && fr.Decl.Recv != nil && len(fr.Decl.Recv.List) == 1 && len(fr.Decl.Recv.List[0].Names) == 1 {
+		if fr.Info().Defs[fr.Decl.Recv.List[0].Names[0]] == types.Object(v) {
+			if sel, ok := unparen(fr.Call.Fun).(*ast.SelectorExpr); ok {
+				if id, ok := unparen(sel.X).(*ast.Ident); ok {
+					if _, isVar := fr.Parent.Info().Uses[id].(*types.Var); isVar {
+						return id, fr.Parent, true
+					}
+				}
+			}
+			return nil, nil, false
+		}
+	}
 	i := 0
 	for _, f := range ft.Params.List {
 		for _, n := range f.Names {
@@ -827,5 +886,169 @@ func (b *gbuilder) varFormula(v *types.Var, fr *core.Frame) *formula {
 }
 
 func (g *gpath) builderAt(i int) *gbuilder {
-	return &gbuilder{c: g.c, defs: g.defs[i], sec: g.sec[i]}
+	return &gbuilder{c: g.c, defs: g.defs[i], sec: g.sec[i], g: g}
+}
+
+// ---------------------------------------------------------------------------------------------
+// structural discovery: helpers are found by what they do, not by what they are called, so that
+// renaming, extracting or merging unexported helpers leaves the rows in place
+
+// callbackRef is a function handed to time.AfterFunc: a literal or a method value.
+type callbackRef struct {
+	lit   *ast.FuncLit
+	decl  *core.FuncDecl // method value / declared function
+	outer *core.FuncDecl // the function containing the AfterFunc call
+	k     int            // rank among the timer callbacks of outer
+}
+
+func (cb callbackRef) name() string {
+	if cb.decl != nil {
+		return core.FuncName(cb.decl.Obj)
+	}
+	return sprintf("%s.timer#%d", core.FuncName(cb.outer.Obj), cb.k)
+}
+
+func (cb callbackRef) entry() core.Entry {
+	if cb.decl != nil {
+		return core.Entry{Decl: cb.decl, Name: cb.name()}
+	}
+	return core.Entry{Lit: cb.lit, Pkg: cb.outer.Pkg, Outer: cb.outer, Name: cb.name()}
+}
+
+func (cb callbackRef) body() (ast.Node, *types.Info) {
+	if cb.decl != nil {
+		return cb.decl.Decl.Body, cb.decl.Pkg.TypesInfo
+	}
+	return cb.lit.Body, cb.outer.Pkg.TypesInfo
+}
+
+// pkgDecls lists the declared functions of a package (relative path) in source order.
+func pkgDecls(c *Ctx, pkg string) []*core.FuncDecl {
+	var out []*core.FuncDecl
+	for _, d := range c.Prog.Funcs {
+		if RelPkg(d.Pkg.PkgPath) == pkg && d.Decl.Body != nil {
+			out = append(out, d)
+		}
+	}
+	sort.Slice(out, func(i, j int) bool { return out[i].Decl.Pos() < out[j].Decl.Pos() })
+	return out
+}
+
+// pkgTimerCallbacks lists every function handed to time.AfterFunc in a package.
+func pkgTimerCallbacks(c *Ctx, pkg string) []callbackRef {
+	var out []callbackRef
+	for _, d := range pkgDecls(c, pkg) {
+		d := d
+		ei := core.EscapesOf(c.Prog, d)
+		k := 0
+		ast.Inspect(d.Decl.Body, func(n ast.Node) bool {
+			call, ok := n.(*ast.CallExpr)
+			if !ok || len(call.Args) != 2 {
+				return true
+			}
+			f, _ := typeutil.Callee(d.Pkg.TypesInfo, call).(*types.Func)
+			if f == nil || f.Pkg() == nil || f.Pkg().Path() != "time" || f.Name() != "AfterFunc" {
+				return true
+			}
+			switch a := unparen(call.Args[1]).(type) {
+			case *ast.FuncLit:
+				k++
+				out = append(out, callbackRef{lit: a, outer: d, k: k})
+			case *ast.Ident:
+				for _, l := range ei.Bound[d.Pkg.TypesInfo.Uses[a]] {
+					k++
+					out = append(out, callbackRef{lit: l, outer: d, k: k})
+				}
+			case *ast.SelectorExpr:
+				if sel, ok := d.Pkg.TypesInfo.Selections[a]; ok && sel.Kind() == types.MethodVal {
+					if md := c.Prog.Decl(sel.Obj().(*types.Func).Origin()); md != nil {
+						k++
+						out = append(out, callbackRef{decl: md, outer: d, k: k})
+					}
+				}
+			}
+			return true
+		})
+	}
+	return out
+}
+
+// bodyCalls: the body contains (also inside nested literals, and through same-package callees, two
+// levels deep) a resolved call of fn.
+func bodyCalls(c *Ctx, body ast.Node, info *types.Info, fn *types.Func, depth int) bool {
+	found := false
+	ast.Inspect(body, func(n ast.Node) bool {
+		call, ok := n.(*ast.CallExpr)
+		if !ok || found {
+			return !found
+		}
+		f, _ := typeutil.Callee(info, call).(*types.Func)
+		if f == nil {
+			return true
+		}
+		f = f.Origin()
+		if f == fn {
+			found = true
+			return false
+		}
+		if depth > 0 && f.Pkg() != nil && fn.Pkg() != nil && f.Pkg() == fn.Pkg() {
+			if d := c.Prog.Decl(f); d != nil && bodyCalls(c, d.Decl.Body, d.Pkg.TypesInfo, fn, depth-1) {
+				found = true
+			}
+		}
+		return !found
+	})
+	return found
+}
+
+// declsWhere lists the declared functions of a package whose body (outside nested literals or not, as
+// asked) satisfies pred on some node.
+func declsWhere(c *Ctx, pkg string, pred func(d *core.FuncDecl, n ast.Node) bool) []*core.FuncDecl {
+	var out []*core.FuncDecl
+	for _, d := range pkgDecls(c, pkg) {
+		d := d
+		hit := false
+		ast.Inspect(d.Decl.Body, func(n ast.Node) bool {
+			if n != nil && !hit && pred(d, n) {
+				hit = true
+			}
+			return !hit
+		})
+		if hit {
+			out = append(out, d)
+		}
+	}
+	return out
+}
+
+// assignsFieldNode: the node is an assignment (or ++/--) whose target is the field (Type.field name).
+func assignsFieldNode(d *core.FuncDecl, n ast.Node, field string) (ast.Expr, bool) {
+	fr := &core.Frame{Pkg: d.Pkg}
+	switch s := n.(type) {
+	case *ast.AssignStmt:
+		for i, l := range s.Lhs {
+			if fv := fieldVar(l, fr); fv != nil && core.FieldName(fv) == field {
+				if len(s.Rhs) == len(s.Lhs) {
+					return s.Rhs[i], true
+				}
+				return nil, true
+			}
+		}
+	case *ast.IncDecStmt:
+		if fv := fieldVar(s.X, fr); fv != nil && core.FieldName(fv) == field {
+			return nil, true
+		}
+	}
+	return nil, false
+}
+
+// pkgAssignedFromCall: the first local of the package assigned (at result index idx) from a call that
+// satisfies pred.
+func pkgAssignedFromCall(c *Ctx, pkg string, idx int, pred func(call *ast.CallExpr) bool) *types.Var {
+	for _, d := range pkgDecls(c, pkg) {
+		if v := assignedFromCall(d, d.Decl, idx, pred); v != nil {
+			return v
+		}
+	}
+	return nil
 }
